@@ -8,6 +8,7 @@ import numpy as np
 from hypothesis import strategies as st
 
 from vp.gen import c17_matrices as GM
+from vp.gen.c19_samples import fill_matrix
 from vp.runner import Suite
 
 PROP_ID = "C17"
@@ -25,7 +26,11 @@ RULE = (
     "Limit cases repeat the checks with S_y*eps resp. S_a*eps, eps = 1e-2 "
     "... 1e-10.  K, S_a, S_y are handed over C-ordered, Fortran-ordered, as "
     "transposed view or as strided view of a larger array; after the calls "
-    "all inputs must be bitwise unchanged.  history: n <= 6, m <= 8; the "
+    "all inputs must be bitwise unchanged.  In half of the cases "
+    "retrieval_noise and smoothing_error are also given ensembles stored in "
+    "columns, e_y of shape (m,k) and x, x_a of shape (n,k) (x_a also (n,1)), "
+    "k in {1, 2, m, n, another size}, compared member by member with G e_y "
+    "and A (x - x_a) including the result shape (n,k).  history: n <= 6, m <= 8; the "
     "same ndarray objects (also the averaging kernel handed to "
     "smoothing_error) are evaluated, updated in place 1-5 times (K / S_a / "
     "S_y scaled, overwritten with a new drawn matrix, K zeroed; e_y, x "
@@ -102,6 +107,30 @@ def as_layout(a, layout):
 
 
 @st.composite
+def ensemble(draw, n, m):
+    """2-D right-hand sides: k error vectors / profiles stored in columns,
+    k in {1, 2, m, n, something else}; None in half of the cases"""
+    if draw(st.booleans()):
+        return None
+    kind = draw(st.sampled_from(["1", "2", "m", "m", "n", "other"]))
+    k = {"1": 1, "2": 2, "m": m, "n": n}.get(kind)
+    if k is None:
+        k = draw(st.integers(3, 12))
+        while k in (m, n):
+            k += 1
+    pool = draw(st.lists(st.floats(-10.0, 10.0, allow_nan=False),
+                         min_size=13, max_size=13))
+    abc = [draw(st.integers(1, 12)) for _ in range(6)]
+    return {
+        "k_kind": kind,
+        "E": fill_matrix(pool, m, k, abc[0], abc[1], abc[2]),
+        "X": fill_matrix(pool, n, k, abc[3], abc[4], abc[5]),
+        "Xa": fill_matrix(pool[::-1], n, k, abc[1], abc[3], abc[0]),
+        "Xa_form": draw(st.sampled_from(["full", "column"])),
+    }
+
+
+@st.composite
 def oem_cases(draw):
     n = draw(st.one_of(st.integers(1, 6), st.integers(1, 30)))
     m = draw(st.one_of(st.integers(1, 6), st.integers(1, 40),
@@ -124,11 +153,12 @@ def oem_cases(draw):
         "ey": draw(st.lists(vec, min_size=m, max_size=m)),
         "limit": limit,
         "layout": {k: draw(layout_strategy) for k in ("K", "Sa", "Sy")},
+        "ensemble": draw(ensemble(n, m)),
     }
 
 
 def identities(ctx, K, Sa, Sy, x, xa, ey, tag="", A_buf=None, args=None,
-               prec=1.0, kept=None):
+               prec=1.0, kept=None, ens=None):
     """All identities for one (K, S_a, S_y).  Returns (tol or None, A).
 
     K ... ey are the float64 values the references are computed from; args
@@ -250,6 +280,38 @@ def identities(ctx, K, Sa, Sy, x, xa, ey, tag="", A_buf=None, args=None,
         tol + 1e-13) * np.linalg.norm(G_m, 2) * fro(ey) + 1e-300,
         "retrieval_noise", lambda: "got %r expected %r; %s" % (
             rn, ref, info()))
+    if ens is not None:
+        # ensembles stored in columns: the maps act column by column
+        E = np.array(ens["E"], dtype=float).reshape(m, -1)
+        X = np.array(ens["X"], dtype=float).reshape(n, -1)
+        Xa = np.array(ens["Xa"], dtype=float).reshape(n, -1)
+        if ens["Xa_form"] == "column":
+            Xa = Xa[:, :1].copy()
+        k = E.shape[1]
+        before = [a.copy() for a in (E, X, Xa)]
+        R = oem.retrieval_noise(tK, tSa, tSy, E)
+        ctx.check(np.shape(R) == (n, k), "retrieval_noise/ensemble-shape",
+                  lambda: "e_y of shape %r (n=%d, m=%d): result shape %r, "
+                  "expected %r" % (E.shape, n, m, np.shape(R), (n, k)))
+        Sm = oem.smoothing_error(X, Xa, A_m)
+        ctx.check(np.shape(Sm) == (n, k), "smoothing_error/ensemble-shape",
+                  lambda: "x %r, x_a %r, A %r: result shape %r" % (
+                      X.shape, Xa.shape, A_m.shape, np.shape(Sm)))
+        nG, nA = np.linalg.norm(G_m, 2), np.linalg.norm(A_m, 2)
+        for j in range(k):
+            ref = G_m @ E[:, j]
+            ctx.check(fro(R[:, j] - ref) <= (tol + 1e-13) * nG * fro(E[:, j])
+                      + 1e-300, "retrieval_noise/ensemble", lambda: (
+                          "e_y of shape %r, member %d: got %r, G e_y = %r; %s"
+                          % (E.shape, j, R[:, j], ref, info())))
+            d = X[:, j] - Xa[:, j if Xa.shape[1] > 1 else 0]
+            ref = A_m @ d
+            ctx.check(fro(Sm[:, j] - ref) <= 1e-12 * nA * fro(d) + 1e-300,
+                      "smoothing_error/ensemble", lambda: (
+                          "x %r, x_a %r, member %d: got %r, A (x - x_a) = %r"
+                          % (X.shape, Xa.shape, j, Sm[:, j], ref)))
+        ctx.check(all(np.array_equal(a, b) for a, b in zip((E, X, Xa), before)),
+                  "inputs-modified", "an ensemble was changed by the call")
     unchanged("smoothing_error / retrieval_noise")
     # results are the caller's: new arrays that no later call changes
     results = [("S", S), ("G", G), ("A", A), ("smoothing_error", se),
@@ -305,7 +367,15 @@ def check_oem(case, ctx):
     if correlated:
         ctx.label("correlated")
     kept = []
-    compared, A = identities(ctx, K, Sa, Sy, x, xa, ey, kept=kept)
+    ens = case.get("ensemble")
+    if ens is not None:
+        ctx.label("ensemble-k=" + ens["k_kind"],
+                  "ensemble-x_a-" + ens["Xa_form"], "ensemble")
+        if len(ens["E"][0]) == m:
+            ctx.label("ensemble-e_y-square(m x m)")
+            if n == m:
+                ctx.label("ensemble-e_y-square-and-n==m")
+    compared, A = identities(ctx, K, Sa, Sy, x, xa, ey, kept=kept, ens=ens)
     if compared is not None and (n != m or correlated):
         ctx.nontrivial = True
 
